@@ -66,6 +66,7 @@ pub enum Ty {
     Func,
     Type,
     Struct(usize),
+    StructInstance,
     Satisfying(Rc<FuncV>),
 }
 
